@@ -17,6 +17,8 @@ theorem tie (t : Tracking) (now : Int) :
   generalize hM : classify _ _ = M
   simp only [boundF]
   repeat' split
-  all_goals (subst hM; simp [classify, leapClass, chronyName, *])
+  all_goals (subst hM; try simp [classify, leapClass, chronyName, *])
+  -- comparisons may come in another normal form than the model's (`x < 3` for `x ≤ 2`): split what is left, arithmetic by omega
+  all_goals (try (split_ifs <;> first | rfl | omega | simp_all))
 
 end ClockBound.Rs.ExtractProof
